@@ -159,6 +159,15 @@ HyTol == 100        \* 1 per cent of the cell's arc (chord error of the fine con
 \* 2e-4 m at Nfine = 100 (quantum 1e-7 m), scaling with 1/Nfine^2
 LenFloor == (2000 * 10000) \div (Obs.nfine * Obs.nfine)
 ArcNear(a, b) == RelNearF(a, b, HyTol, LenFloor)
+\* C02: "the covariant components reproduce the scalar products of the actual displacements ... (the poloidal part of g_22)": dy times the
+\* square root of g_22 - (R dphidy)^2, as written in the file, is the arc between the neighbouring points along the surface - at the centre
+\* (face to face) and at ylow (centre to centre, across region joins too: the neighbour below comes from the specification's adjacency)
+C02ArcClauses ==
+  LET A == Obs.arc  S == Obs.g22pol IN
+  /\ ClauseAt("Displacement_g_22pol_arc", \A x \in XS : \A y \in YS :
+        ArcNear(S.centre[x + 1][y + 1], A.Alo_c[x + 1][y + 1] + A.Ahi_c[x + 1][y + 1]), "centre")
+  /\ ClauseAt("Displacement_g_22pol_arc", \A x \in XS : \A y \in YS :
+        Down(x, y) # -1 => ArcNear(S.ylow[x + 1][y + 1], A.Alo_c[x + 1][y + 1] + A.Ahi_c[x + 1][Down(x, y) + 1]), "ylow")
 C05Clauses ==
   LET A == Obs.arc  H == Obs.hydy  PD == Obs.pd IN
   /\ \A loc \in {"centre", "ylow", "xlow"} :
@@ -506,7 +515,7 @@ C05PairClauses ==
 Observe ==
   /\ stage = "file"
   /\ CASE Obs.prop = "C01" -> C01Clauses
-       [] Obs.prop = "C02" -> PairClauses
+       [] Obs.prop = "C02" -> PairClauses /\ C02ArcClauses
        [] Obs.prop = "C03" -> PairClauses /\ C03Extra
        [] Obs.prop = "C08" -> C08GridClauses
        [] Obs.prop = "C09" -> C09Clauses
